@@ -26,7 +26,8 @@ def gen_world(rng):
     drift = rng.choice([1000, 50000, 50000, 10 ** 6, 10 ** 7])
     rho = Fraction(drift, NS)
     cfg = rng.choice([-1, -1, 0x50484330])
-    t = rng.randrange(100, 10 ** 5) * NS + rng.randrange(NS)
+    # small uptimes too: a placeholder record (as-of 0) is still inside its void-after window there
+    t = rng.choice([rng.randrange(6, 900), rng.randrange(100, 10 ** 5)]) * NS + rng.randrange(NS)
     items, truth = [], []
     anchor = None            # (true instant of the last valid report, clock error then) ; error in ns (Fraction)
     running = False
